@@ -166,7 +166,12 @@ pub fn sexp_of_goal(g: &Goal) -> Sexp {
 pub fn rule_of(x: &Sexp) -> R<Rule> {
     let l = x.list()?;
     if l.len() == 3 && l[0] == a("rule") {
-        Ok(Rule{ head: term_of(&l[1])?, body: goal_of(&l[2])? })
+        // through the crate's own constructors (knowledge_base.rs), not a struct literal
+        let head = term_of(&l[1])?;
+        match goal_of(&l[2])? {
+            Goal::Nil => Ok(make_fact(head)),
+            body => Ok(make_rule(head, body)),
+        }
     } else { Err(format!("rule: {}", x.to_text())) }
 }
 pub fn sexp_of_rule(r: &Rule) -> Sexp {
